@@ -1,6 +1,8 @@
 package world
 
 import (
+	"fmt"
+	"strings"
 	"sync"
 	"time"
 
@@ -22,6 +24,7 @@ type BrokerCfg struct {
 	PingrespDelay time.Duration                     // PINGRESP is sent that much later (virtual time)
 	AckDelay      time.Duration                     // PUBACK/PUBREC/PUBCOMP/PUBREL/SUBACK/UNSUBACK are sent that much later
 	CloseDelay    time.Duration                     // the connection is closed that long after a DISCONNECT / refused CONNECT (0: at once)
+	EarlyPublish  bool                              // a granted SUBSCRIBE to a concrete topic name is followed by a retained-style PUBLISH on it BEFORE the SUBACK (MQTT 3.1.1 allows that)
 }
 
 type brokerSess struct {
@@ -33,6 +36,7 @@ type brokerSess struct {
 	recv2     map[uint16]bool
 	got       []*mqttref.Pkt
 	closed    bool
+	early     int
 }
 
 // Broker is the simulated broker shared by the sessions of a world.
@@ -176,6 +180,18 @@ func (b *Broker) Handler() func(s *Session, p *mqttref.Pkt) {
 					bs.subs[f] = code
 				}
 				codes = append(codes, code)
+			}
+			if b.Cfg.EarlyPublish && len(p.Filters) == 1 && len(codes) == 1 && codes[0] <= 2 && !strings.ContainsAny(p.Filters[0], "+#") {
+				bs.early++
+				q := codes[0]
+				if q > 1 {
+					q = 1
+				}
+				var mid uint16
+				if q > 0 {
+					mid = b.nextLocked(bs)
+				}
+				out = append(out, mqttref.EncPublish(p.Filters[0], mid, q, false, true, []byte(fmt.Sprintf("early-%d", bs.early))))
 			}
 			if !b.Cfg.NoSuback {
 				out = append(out, mqttref.EncSuback(p.MsgID, codes...))
